@@ -1,5 +1,6 @@
 (* C02 — suggest: exact count, sticky per worker, fresh ids.  Statements only. *)
 From VZ Require Import Base.Prelude Model.Service Proofs.ServiceP Proofs.WedgeP Proofs.StickyP Proofs.ReachP Proofs.FrameP Proofs.SuggestSpecP Proofs.SortedP.
+From VZ Require Model.HandlerIR Model.SuggestIR Gen.SuggestSrc Proofs.SuggestIRP.
 
 (* every new trial is numbered max+1: creating it always succeeds, appends it, its id is larger than every id in the
    study and the maximum grows by exactly one (so ids increase with creation order) *)
@@ -149,3 +150,11 @@ Print Assumptions C02_worked_instance.
 (* PARTIAL: that the handler program is the code (incl. the order in which the datastores list trials) is decided by the
    trace-level correspondence + monitor over generated histories; client-side polling (vizier_client.get_suggestions) by the
    monitor only. *)
+
+(* SUGGESTTRIALS IS THE SOURCE.  Gen/SuggestSrc.v is regenerated at every run from VizierServicer.SuggestTrials (block by block,
+   see Model/SuggestIR.v and C01_source_handlers_are_the_model); the program it denotes is the handler program the theorems above
+   are about. *)
+Theorem C02_source_suggest_is_the_model : forall k c n,
+  HandlerIR.peq (SuggestIR.suggest_of SuggestSrc.src_SuggestTrials k c n) (handler (SuggestTrials k c n)).
+Proof. exact SuggestIRP.src_suggest_is_h_suggest. Qed.
+Print Assumptions C02_source_suggest_is_the_model.
